@@ -70,6 +70,22 @@ __CPROVER_ensures(RET == AWS_OP_SUCCESS ==> to_find->len >= 1 && to_find->len <=
 __CPROVER_ensures(RET == AWS_OP_SUCCESS && g_j < to_find->len ==> input_str->ptr[g_fx + g_j] == to_find->ptr[g_j])
 ;
 
+
+/* aws_byte_buf_append as s_advance_to_closing_tag needs it: lengths only, the WHOLE destination storage in the frame.
+ * (The C01 contract frames the slice [len, len+n); havocking a symbolic slice of the 259-byte stack buffers costs
+ * millions of SAT variables.)  Checked against the real aws_byte_buf_append by unit xml_append_lengths. */
+int xmlc_append(struct aws_byte_buf *to, const struct aws_byte_cursor *from)
+__CPROVER_requires(BUF_OK(to))
+__CPROVER_requires(CUR_OK(from))
+__CPROVER_assigns(APPEND_FITS(to, from) : to->len)
+__CPROVER_assigns(APPEND_FITS(to, from) && from->len > 0 : __CPROVER_object_whole(to->buffer))
+__CPROVER_ensures(RET == AWS_OP_SUCCESS || RET == AWS_OP_ERR)
+__CPROVER_ensures((RET == AWS_OP_SUCCESS) == (OLD(to->capacity) - OLD(to->len) >= from->len))
+__CPROVER_ensures(RET == AWS_OP_SUCCESS ==> to->len == OLD(to->len) + from->len)
+__CPROVER_ensures(RET != AWS_OP_SUCCESS ==> to->len == OLD(to->len))
+__CPROVER_ensures(BUF_SHAPE_KEPT(to))
+;
+
 /* ------------------------------------------------------------------ s_advance_to_closing_tag
  * Every call site has parser->doc == node->doc_at_body (a callback that left the node alone cannot have moved the
  * parser) and parser->error == 0 (DESIGN 5/C04). */
